@@ -560,37 +560,41 @@ def obligations(tier, seed):
                                clause="result[s] ≡ result of the s-th slices (or raises)", funcs=FUNCS, seed=seed, **kw))
 
     shapes = [(S,) for S in R] + [(S, K) for S in R for K in R if (tier == "thorough" or (S, K) in ((2, 2), (2, 3), (3, 2)))]
+    # a sample dimension of size one (the classic squeeze / broadcast slip) in every position
+    ones = [(1,), (1, 2), (2, 1)]
+    if tier == "quick":
+        shapes = shapes[:5] + ones + shapes[5:]
     # site models (all parameters batched)
     for b in shapes:
         add("C10.site.weibull[K=4,inv,mu,batch=%s]" % (b,), "C05", "scn_weibull", (4, b, True, True), (4, (), True, True), "rates_value", b)
         add("C10.site.invariant[batch=%s]" % (b,), "C05", "scn_invariant", (b, True), ((), True), "rates_value", b)
     # substitution models: q with every subset batched
-    for b in shapes[:4]:
+    for b in shapes[:4] + (ones[:2] if tier == "quick" else []):
         for pb, fb in ((b, ()), ((), b), (b, b)):
             for kind in ("HKY", "GTR"):
                 add("C10.subst.q.%s[pbatch=%s,fbatch=%s]" % (kind, pb, fb), "C04", "scn_q", (kind, pb, fb), (kind, (), ()), "rows_sum_to_zero" if False else None, b)
     # coalescents: heights and/or parameters batched
     for model, grid in (("constant", None), ("exponential", None), ("skyride", None), ("skygrid", [0.4, 2.5]), ("linear", [0.4, 2.5])):
-        for b in ([(2,), (3,)] if tier == "quick" else [(1,), (2,), (3,), (2, 2)]):
+        for b in ([(2,), (3,), (1,), (2, 2), (1, 2), (2, 1)] if tier == "quick" else [(1,), (2,), (3,), (2, 2), (1, 2), (2, 1), (3, 2)]):
             for hb, tb in ((b, ()), ((), b), (b, b)):
                 T = 2
                 ab = (model, T, "serial", hb, tb) + ((grid,) if grid else ())
                 au = (model, T, "serial", (), ()) + ((grid,) if grid else ())
                 add("C10.coalescent.%s[hbatch=%s,tbatch=%s]" % (model, hb, tb), "C08", "scn_coalescent", ab, au, "log_prob_is_kingman", b)
     # rescaled pruning functions (tip partials and tip states), sample shape equal / unequal to the number of rate categories
-    for b in [(2,), (3,)]:
+    for b in [(2,), (3,), (1,), (2, 2)]:
         add("C10.likelihood.rescaled[partials,K=2,batch=%s]" % (b,), "C03", "scn_rescaled", ("partials", "((0,1),2)", 2, 2, b, 1), ("partials", "((0,1),2)", 2, 2, (), 1), "rescaled_equals_plain", b)
         add("C10.likelihood.rescaled[states,K=2,batch=%s]" % (b,), "C03", "scn_rescaled", ("states", "((0,1),2)", 2, 2, b, [[0, 1], [1, 2], [0, 0]]),
             ("states", "((0,1),2)", 2, 2, (), [[0, 1], [1, 2], [0, 0]]), "rescaled_equals_plain", b)
     # birth-death skyline: parameters and/or node heights batched
-    for b in [(2,), (3,)]:
+    for b in [(2,), (3,), (1,), (2, 2)]:
         for pb, hb in ((b, ()), ((), b), (b, b)):
             for m_ in (1, 2):
                 if m_ == 2 and (tier == "quick" or b != (2,)):
                     continue   # two epochs: 16 paths x sqrt-heavy identities, ~6 min per obligation: thorough tier, sample shape (2,) only
                 add("C10.bdsk[m=%d,pbatch=%s,hbatch=%s]" % (m_, pb, hb), "C10", "scn_bdsk", (2, m_, pb, hb), (2, m_, (), ()), "log_density", b, timeout=1500)
     # GMRF
-    for b in shapes[:5]:
+    for b in shapes[:8]:
         add("C10.gmrf.plain[N=4,batch=%s]" % (b,), "C20", "scn_gmrf", ("plain", 4, b), ("plain", 4, ()), "density_is_quadratic_form_of_published_precision", b)
     # time-aware GMRF: field, precision AND node heights batched (rescaling by the root height of the SAME sample); incl. S = number of differences
     for N_, b in ((3, (2,)), (4, (3,)), (3, (3,)), (4, (2,))):
@@ -598,14 +602,14 @@ def obligations(tier, seed):
     add("C10.gmrf.timeaware[N=3,batch=(2,),heights fixed]", "C20", "scn_gmrf", ("timeaware", 3, (2,)), ("timeaware", 3, ()), "density_is_quadratic_form_of_published_precision", (2,))
     add("C10.gmrf.weighted[N=4,batch=(3,)]", "C20", "scn_gmrf", ("weighted", 4, (3,)), ("weighted", 4, ()), "density_is_quadratic_form_of_published_precision", (3,))
     # transforms
-    for b in shapes[:5]:
+    for b in shapes[:8]:
         for kind in ("cumsum", "cumsumexp", "softplus", "cumsumsoftplus", "log"):
             add("C10.transform.%s.forward[batch=%s]" % (kind, b), "C10", "scn_transform_values", (kind, 3, b), (kind, 3, ()), "forward", b)
             add("C10.transform.%s.ladj[batch=%s]" % (kind, b), "C10", "scn_transform_values", (kind, 3, b), (kind, 3, ()), "ladj", b)
-    for b in [(2,), (3,)]:
+    for b in [(2,), (3,), (1,), (2, 2), (1, 2), (2, 1)]:
         add("C10.nodeheight.ratio[batch=%s]" % (b,), "C06", "scn_ratio", ("((0,1),(2,3))", "hetero", b), ("((0,1),(2,3))", "hetero", ()), "inverse_of_forward_is_identity", b)
     # tree likelihood pipeline: tree parameters batched, site / substitution parameters not ("some")
-    for b in [(2,), (3,)]:
+    for b in [(2,), (3,), (1,), (2, 2), (1, 2), (2, 1)]:
         a = lambda bb: ("((A,B),C);", ["C", "A", "B"], ["AC", "CG", "GT"], [0.0, 0.0, 0.0], "unrooted", None, "weibull", 2, False, True, bb, "JC69")
         add("C10.likelihood.model[unrooted,weibull,batch=%s]" % (b,), "C01", "scn_model", a(b), a(()), "model_loglik_is_marginal", b)
         a2 = lambda bb: ("((A,B),C);", ["A", "B", "C"], ["AC", "CG", "GT"], [0.0, 1.0, 0.0], "time", "strict", "constant", 1, False, True, bb, "JC69")
@@ -613,13 +617,13 @@ def obligations(tier, seed):
     # "some": only the clock rates are batched (node heights fixed), and only the heights are batched (clock fixed)
     for ck in ("strict", "simple"):
         base = ("((A,B),C);", ["A", "B", "C"], ["AC", "CG", "GT"], [0.0, 1.0, 0.0], "time", ck, "constant", 1, False, True)
-        for b in [(2,), (3,)]:
+        for b in [(2,), (3,), (1,), (2, 2)]:
             add("C10.likelihood.model[time,%s,clock batch=%s,heights fixed]" % (ck, b), "C01", "scn_model", base + ((), "JC69", False, b), base + ((), "JC69", False, ()), "model_loglik_is_marginal", b)
             add("C10.likelihood.model[time,%s,heights batch=%s,clock fixed]" % (ck, b), "C01", "scn_model", base + (b, "JC69", False, ()), base + ((), "JC69", False, ()), "model_loglik_is_marginal", b)
     # joint distribution with abstract components
     comp_sets = [[()], [(), ()], [(1,)], [(), (1,)], [(2,)], [(), (3,)], [(2, 2)], [(), (1,), (3,)],
                  [(), ("u",)], [(), ("u", 1)], [(), ("u", 3)], [(1,), ("u", 2)], [(), ("u", 2, 2)], [(2,), ("u",), ("u", 4)]]
-    for b in [(2,), (3,), (2, 3)] + ([(1,), (4,), (5,), (3, 3)] if tier == "thorough" else []):
+    for b in [(2,), (3,), (2, 3), (1,), (1, 2)] + ([(4,), (5,), (3, 3), (2, 1)] if tier == "thorough" else []):
         for cs in comp_sets:
             obs.append(scenario_ob("C10", "C10.joint[sample=%s,components=%s]" % (b, cs), "V", "scn_joint", (b, cs),
                                    clause="joint adds components of the same sample only", funcs=FUNCS, seed=seed))
